@@ -106,3 +106,31 @@ Print Assumptions C17_follows_mirror_orig_refuted.
 Theorem C17_follows_mirror_orig_sound : follows_mirror_orig_sound_stmt.
 Proof. exact follows_mirror_orig_sound. Qed.
 Print Assumptions C17_follows_mirror_orig_sound.
+
+(* the REPAIRED rule_min_costs / rule_max_costs (notes/C17-costs-fix.diff; mirrors in C17/CostMirror.v): terminate within their fuel,
+   exact against the declarative minimum / maximum / unboundedness, overflow panics only for true finite costs beyond u16.
+   (C17_min_iter_diverges_refuted above stays: it documents the defect of the original loop.) *)
+From GV Require Import C17.CostMirror C17.CostMirrorSpec C17.CostMirrorProofs.
+Theorem C17_min_costs_fixed_exact : min_costs_fixed_exact_stmt.
+Proof. exact min_costs_fixed_exact. Qed.
+Print Assumptions C17_min_costs_fixed_exact.
+
+Theorem C17_max_costs_fixed_exact : max_costs_fixed_exact_stmt.
+Proof. exact max_costs_fixed_exact. Qed.
+Print Assumptions C17_max_costs_fixed_exact.
+
+Theorem C17_fixed_costs_terminate : fixed_costs_terminate_stmt.
+Proof. exact fixed_costs_terminate. Qed.
+Print Assumptions C17_fixed_costs_terminate.
+
+Theorem C17_min_costs_fixed_panic_iff : min_costs_fixed_panic_iff_stmt.
+Proof. exact min_costs_fixed_panic_iff. Qed.
+Print Assumptions C17_min_costs_fixed_panic_iff.
+
+Theorem C17_max_costs_fixed_panic_iff : max_costs_fixed_panic_iff_stmt.
+Proof. exact max_costs_fixed_panic_iff. Qed.
+Print Assumptions C17_max_costs_fixed_panic_iff.
+
+Theorem C17_fixed_costs_agree_certified : fixed_costs_agree_certified_stmt.
+Proof. exact fixed_costs_agree_certified. Qed.
+Print Assumptions C17_fixed_costs_agree_certified.
